@@ -15,6 +15,21 @@ structure BackendOK (size align : Nat) (rd : Rd) (c : Nat → UInt8) : Prop wher
   exact_ok : ∀ off len, off % align = 0 → len % align = 0 → off + len ≤ size →
       rd off len = .ok (slice c off len)
 
+/-- The part of `BackendOK` the buffered layer actually uses: the only requests that may run past the
+    end are the buffer fills `rd off align` (aligned `off < size`); whole-block requests are in range.
+    (`AlignedStream` never asks the backend for anything else: `_fill_buf` reads `align` bytes at
+    `_pos_align`, `_read` of whole blocks is clamped to the size first.) A backend whose tables are only
+    known to be well-formed up to `roundup(size, align)` — QCOW2 — satisfies this weaker contract. -/
+structure BackendOKAt (size align : Nat) (rd : Rd) (c : Nat → UInt8) : Prop where
+  prefix_ok : ∀ off, off % align = 0 → off < size → 0 < align →
+      ∃ b, rd off align = .ok b ∧ b.take (min align (size - off)) = slice c off (min align (size - off))
+  exact_ok : ∀ off len, off % align = 0 → len % align = 0 → off + len ≤ size →
+      rd off len = .ok (slice c off len)
+
+theorem BackendOK.at {size align : Nat} {rd : Rd} {c : Nat → UInt8} (h : BackendOK size align rd c) :
+    BackendOKAt size align rd c :=
+  ⟨fun off h1 h2 h3 => h.prefix_ok off align h1 h2 h3, h.exact_ok⟩
+
 structure AS.Inv (rd : Rd) (s : AS) : Prop where
   apos : 0 < s.align
   pa : s.posAlign = s.pos - s.pos % s.align
@@ -42,7 +57,7 @@ theorem AS.setPos_inv (s : AS) (p) (h : s.Inv rd) : (s.setPos p).Inv rd := by
 
 /-- `fillBuf` on a state with `pos < size`: succeeds, keeps everything but the buffer,
     and the buffer then holds `rd posAlign align`. -/
-theorem AS.fillBuf_spec (s : AS) (hi : s.Inv rd) (hb : BackendOK s.size s.align rd c)
+theorem AS.fillBuf_spec (s : AS) (hi : s.Inv rd) (hb : BackendOKAt s.size s.align rd c)
     (h1 : s.pos < s.size) :
     ∃ s' b, s.fillBuf rd = .ok s' ∧ s'.pos = s.pos ∧ s'.posAlign = s.posAlign ∧ s'.size = s.size ∧
       s'.align = s.align ∧ s'.Inv rd ∧ s'.bufBytes = .ok b ∧ rd s.posAlign s.align = .ok b := by
@@ -64,7 +79,7 @@ theorem AS.fillBuf_spec (s : AS) (hi : s.Inv rd) (hb : BackendOK s.size s.align 
       · omega
       · omega
     simp only [hcond, if_false]
-    obtain ⟨b, hrd, _⟩ := hb.prefix_ok s.posAlign s.align hpam (by omega) ha
+    obtain ⟨b, hrd, _⟩ := hb.prefix_ok s.posAlign hpam (by omega) ha
     rw [hrd]
     refine ⟨{ s with buf := some b }, b, rfl, rfl, rfl, rfl, rfl, ?_, by simp [AS.bufBytes], rfl⟩
     exact ⟨ha, hpa, by intro b' hb'; cases hb'; exact hrd⟩
@@ -91,7 +106,7 @@ structure StageOK (rd : Rd) (c : Nat → UInt8) (s : AS) (n : Nat) (r : Bytes) (
   size : s'.size = s.size
   align : s'.align = s.align
 
-theorem AS.head_spec (s : AS) (n : Nat) (hi : s.Inv rd) (hb : BackendOK s.size s.align rd c)
+theorem AS.head_spec (s : AS) (n : Nat) (hi : s.Inv rd) (hb : BackendOKAt s.size s.align rd c)
     (hn : 0 < n) (hle : s.pos + n ≤ s.size) :
     ∃ r s' n', s.head rd n = .ok (r, s', n') ∧ StageOK rd c s n r s' n' ∧
       (n' = 0 ∨ s'.pos % s.align = 0) := by
@@ -112,7 +127,7 @@ theorem AS.head_spec (s : AS) (n : Nat) (hi : s.Inv rd) (hb : BackendOK s.size s
     have hbl2 : bl ≤ n := by omega
     have hbl3 : s.pos % s.align + bl ≤ s.align := by omega
     have hpam : s.posAlign % s.align = 0 := by rw [hpa]; exact sub_mod_self_mod _ _
-    obtain ⟨b', hrd', hX⟩ := hb.prefix_ok s.posAlign s.align hpam (by omega) ha
+    obtain ⟨b', hrd', hX⟩ := hb.prefix_ok s.posAlign hpam (by omega) ha
     rw [hrd] at hrd'; cases hrd'
     have hslice := take_drop_of_take_eq b _ (s.pos % s.align) bl c s.posAlign hX (by omega)
     have hposeq : s.posAlign + s.pos % s.align = s.pos := by omega
@@ -135,7 +150,7 @@ theorem AS.head_spec (s : AS) (n : Nat) (hi : s.Inv rd) (hb : BackendOK s.size s
     right
     exact aligned_of_eq _ _ (by omega) ha
 
-theorem AS.whole_spec (s : AS) (n : Nat) (hi : s.Inv rd) (hb : BackendOK s.size s.align rd c)
+theorem AS.whole_spec (s : AS) (n : Nat) (hi : s.Inv rd) (hb : BackendOKAt s.size s.align rd c)
     (hle : s.pos + n ≤ s.size) (hal : n = 0 ∨ s.pos % s.align = 0) :
     ∃ r s' n', s.whole rd n = .ok (r, s', n') ∧ StageOK rd c s n r s' n' ∧ n' < s.align ∧
       (n' = 0 ∨ s'.pos % s.align = 0) := by
@@ -156,7 +171,7 @@ theorem AS.whole_spec (s : AS) (n : Nat) (hi : s.Inv rd) (hb : BackendOK s.size 
   · simp only [hge, if_false]
     exact ⟨_, _, _, rfl, ⟨by simp, Nat.le_refl _, by omega, hi, rfl, rfl⟩, by omega, hal⟩
 
-theorem AS.tail_spec (s : AS) (n : Nat) (hi : s.Inv rd) (hb : BackendOK s.size s.align rd c)
+theorem AS.tail_spec (s : AS) (n : Nat) (hi : s.Inv rd) (hb : BackendOKAt s.size s.align rd c)
     (hle : s.pos + n ≤ s.size) (hlt : n < s.align) (hal : n = 0 ∨ s.pos % s.align = 0) :
     ∃ r s', s.tail rd n = .ok (r, s') ∧ r = slice c s.pos n ∧ s'.pos = s.pos + n ∧ s'.Inv rd ∧
       s'.size = s.size ∧ s'.align = s.align := by
@@ -169,7 +184,7 @@ theorem AS.tail_spec (s : AS) (n : Nat) (hi : s.Inv rd) (hb : BackendOK s.size s
     obtain ⟨s1, b, hf, hp1, hpa1, hs1, hal1, hinv1, hbb, hrd⟩ := AS.fillBuf_spec (c := c) s hi hb (by omega)
     rw [hf]
     simp only [bind, Except.bind, hbb, hp1]
-    obtain ⟨b', hrd', hX⟩ := hb.prefix_ok s.pos s.align hp (by omega) ha
+    obtain ⟨b', hrd', hX⟩ := hb.prefix_ok s.pos hp (by omega) ha
     rw [hpa] at hrd
     rw [hrd] at hrd'; cases hrd'
     refine ⟨_, _, rfl, ?_, by simp, AS.setPos_inv _ _ hinv1, by simp [hs1], by simp [hal1]⟩
@@ -181,7 +196,7 @@ theorem AS.tail_spec (s : AS) (n : Nat) (hi : s.Inv rd) (hb : BackendOK s.size s
     exact ⟨[], s, by simp, by simp, by simp, hi, rfl, rfl⟩
 
 /-- C08 core: one `read` on a stream satisfying the invariant behaves like an array read. -/
-theorem AS.readNat_spec (s : AS) (n0 : Nat) (hi : s.Inv rd) (hb : BackendOK s.size s.align rd c) :
+theorem AS.readNat_spec (s : AS) (n0 : Nat) (hi : s.Inv rd) (hb : BackendOKAt s.size s.align rd c) :
     ∃ s', s.readNat rd n0 = .ok (slice c s.pos (min n0 (s.size - s.pos)), s') ∧
       s'.pos = s.pos + min n0 (s.size - s.pos) ∧ s'.Inv rd ∧ s'.size = s.size ∧ s'.align = s.align := by
   unfold AS.readNat
@@ -190,12 +205,12 @@ theorem AS.readNat_spec (s : AS) (n0 : Nat) (hi : s.Inv rd) (hb : BackendOK s.si
   · subst hz; exact ⟨s, by simp, by simp, hi, rfl, rfl⟩
   · simp only [hz, if_false]
     obtain ⟨r1, s1, n1, e1, k1, a1⟩ := AS.head_spec (c := c) s n hi hb (by omega) (by omega)
-    have hb1 : BackendOK s1.size s1.align rd c := by rw [k1.size, k1.align]; exact hb
+    have hb1 : BackendOKAt s1.size s1.align rd c := by rw [k1.size, k1.align]; exact hb
     obtain ⟨r2, s2, n2, e2, k2, l2, a2⟩ :=
       AS.whole_spec (c := c) s1 n1 k1.inv hb1
         (by have := k1.pos; have := k1.le; have := k1.size; omega)
         (by rw [k1.align]; exact a1)
-    have hb2 : BackendOK s2.size s2.align rd c := by rw [k2.size, k2.align]; exact hb1
+    have hb2 : BackendOKAt s2.size s2.align rd c := by rw [k2.size, k2.align]; exact hb1
     obtain ⟨r3, s3, e3, b3, p3, i3, z3, g3⟩ :=
       AS.tail_spec (c := c) s2 n2 k2.inv hb2
         (by have := k1.pos; have := k1.le; have := k2.pos; have := k2.le; have := k1.size
@@ -221,7 +236,7 @@ namespace Hv
 variable {rd : Rd} {c : Nat → UInt8}
 
 /-- `read n` for any integer `n`, against the specification's `readLen`. -/
-theorem AS.read_spec (s : AS) (n : Int) (hi : s.Inv rd) (hb : BackendOK s.size s.align rd c) :
+theorem AS.read_spec (s : AS) (n : Int) (hi : s.Inv rd) (hb : BackendOKAt s.size s.align rd c) :
     match Spec.readLen ⟨s.size, s.pos⟩ n with
     | none => ∃ e, s.read rd n = .error e
     | some k => ∃ s', s.read rd n = .ok (slice c s.pos k, s') ∧ s'.pos = s.pos + k ∧ s'.Inv rd ∧
@@ -239,7 +254,7 @@ theorem AS.read_spec (s : AS) (n : Int) (hi : s.Inv rd) (hb : BackendOK s.size s
       exact AS.readNat_spec (c := c) s n.toNat hi hb
 
 /-- one operation: same output as the specification, invariant re-established -/
-theorem AS.step_spec (s : AS) (op : Op) (hi : s.Inv rd) (hb : BackendOK s.size s.align rd c) :
+theorem AS.step_spec (s : AS) (op : Op) (hi : s.Inv rd) (hb : BackendOKAt s.size s.align rd c) :
     (s.step rd op).2 = (Spec.step c ⟨s.size, s.pos⟩ op).2 ∧
     (s.step rd op).1.pos = (Spec.step c ⟨s.size, s.pos⟩ op).1.pos ∧
     (Spec.step c ⟨s.size, s.pos⟩ op).1.size = s.size ∧
@@ -289,7 +304,7 @@ theorem AS.step_spec (s : AS) (op : Op) (hi : s.Inv rd) (hb : BackendOK s.size s
     · refine ⟨?_, ?_, ?_, ?_, ?_, ?_⟩ <;>
         simp [AS.step, Spec.step, AS.readoffset, AS.seek, AS.seekPos, h, hi, bind, Except.bind]
     · have hi1 : (s.setPos o.toNat).Inv rd := AS.setPos_inv _ _ hi
-      have hb1 : BackendOK (s.setPos o.toNat).size (s.setPos o.toNat).align rd c := by
+      have hb1 : BackendOKAt (s.setPos o.toNat).size (s.setPos o.toNat).align rd c := by
         simpa using hb
       have hr := AS.read_spec (c := c) (s.setPos o.toNat) n hi1 hb1
       simp only [AS.setPos_size, AS.setPos_pos] at hr
@@ -306,7 +321,7 @@ theorem AS.step_spec (s : AS) (op : Op) (hi : s.Inv rd) (hb : BackendOK s.size s
 
 /-- **C08 refinement**: for a backend satisfying `BackendOK`, every finite history of
     operations produces exactly the outputs of the immutable-array specification. -/
-theorem AS.run_refines (ops : List Op) : ∀ (s : AS), s.Inv rd → BackendOK s.size s.align rd c →
+theorem AS.run_refines_at (ops : List Op) : ∀ (s : AS), s.Inv rd → BackendOKAt s.size s.align rd c →
     AS.run rd s ops = Spec.run c ⟨s.size, s.pos⟩ ops := by
   induction ops with
   | nil => intro s _ _; rfl
@@ -317,13 +332,18 @@ theorem AS.run_refines (ops : List Op) : ∀ (s : AS), s.Inv rd → BackendOK s.
     simp only
     rw [ho]
     congr 1
-    have hb' : BackendOK (s.step rd op).1.size (s.step rd op).1.align rd c := by rw [hs, ha]; exact hb
+    have hb' : BackendOKAt (s.step rd op).1.size (s.step rd op).1.align rd c := by rw [hs, ha]; exact hb
     rw [ih _ hinv hb', hs, hp]
     congr 1
     generalize Spec.step c ⟨s.size, s.pos⟩ op = q at hz
     obtain ⟨⟨qs, qp⟩, qo⟩ := q
     simp only at hz
     subst hz; rfl
+
+/-- **C08 refinement** for the full contract `BackendOK` (every request length) -/
+theorem AS.run_refines (ops : List Op) (s : AS) (hi : s.Inv rd) (hb : BackendOK s.size s.align rd c) :
+    AS.run rd s ops = Spec.run c ⟨s.size, s.pos⟩ ops :=
+  AS.run_refines_at ops s hi hb.at
 
 /-- a backend that returns exactly the clamped slice for every request satisfies
     `BackendOK` for every alignment -/
